@@ -117,3 +117,12 @@ Theorem C08_num_enum_inhabited :
     map (fun kv => Valid.valid (fun _ _ => true) [] (fuelV 0 0) ex_ne_obj (JObj kv)) ex_ne_docs = [true; true; false; false; false].
 Proof. exact num_enum_inhabited. Qed.
 Print Assumptions C08_num_enum_inhabited.
+
+(* ... and boolean enums: {"type": "boolean", "enum": [true]} *)
+Theorem C08_bool_enum_inhabited :
+  exists t b, Gen.gen (fun s => s) (mkCfg false false) [] (fuelG 0 2) MDeclared None false ex_be_obj [82]%N = Done (t, b) /\
+    (forall kv, In kv ex_be_docs ->
+       is_ok (Exec.dec (fun _ _ => true) [] (fuelD 0 0) t (JObj kv)) = Valid.valid (fun _ _ => true) [] (fuelV 0 0) ex_be_obj (JObj kv)) /\
+    map (fun kv => Valid.valid (fun _ _ => true) [] (fuelV 0 0) ex_be_obj (JObj kv)) ex_be_docs = [true; false; false; false].
+Proof. exact bool_enum_inhabited. Qed.
+Print Assumptions C08_bool_enum_inhabited.
